@@ -120,6 +120,14 @@ pub fn input_sets() -> Vec<InputSet> {
             start: "orders.wsdl".into(),
         });
     }
+    // an input on which the library panics instead of returning Err (build_restrictions unwraps the value attribute):
+    // "fails for any reason" includes this
+    v.push(InputSet {
+        name: "library-panics".into(),
+        stage: Some("library-panics"),
+        files: vec![("enum.xsd".into(), br#"<?xml version="1.0"?><xs:schema xmlns:xs="http://www.w3.org/2001/XMLSchema" xmlns:e="http://example.com/enum/novalue" targetNamespace="http://example.com/enum/novalue"><xs:simpleType name="Broken"><xs:restriction base="xs:string"><xs:enumeration/></xs:restriction></xs:simpleType></xs:schema>"#.to_vec())],
+        start: "enum.xsd".into(),
+    });
     for (n, p) in [("repo-blz", "resources/blz_service/blz.wsdl"), ("repo-weather", "resources/weather/weather.wsdl")] {
         if let Some(b) = rd(&repo.join(p)) {
             let fname = Path::new(p).file_name().unwrap().to_string_lossy().to_string();
